@@ -21,7 +21,13 @@ def _in_range(self, cds, other):
     the distance computation"""
     if L.issym(cds.start) or L.issym(other.start) or L.issym(self.cutoff):
         from ..core import ENG
-        return ENG.summarise(_orig_in_range, self, cds, other)
+        if ENG.nested:
+            return _orig_in_range(self, cds, other)
+        # memoised per path: the same pair is asked again by every leaf of the rule and by every rule
+        key = ("in_range", id(cds), id(other), repr(self.cutoff), repr(self.circular_origin))
+        if key not in ENG.memo:
+            ENG.memo[key] = (ENG.summarise(_orig_in_range, self, cds, other), cds, other)
+        return ENG.memo[key][0]
     return _orig_in_range(self, cds, other)
 
 
